@@ -10,13 +10,51 @@ import importlib
 from pyvc import driver
 
 
+LOADERS = [  # (file, qualified name, how the table loader is memoised): the mechanisms the property names for on-demand table loading
+    ("dissect/hypervisor/disk/qcow2.py", "QCow2.l1_table", "decorator:cached_property"), ("dissect/hypervisor/disk/hdd.py", "HDS.bat", "decorator:cached_property"),
+    ("dissect/hypervisor/disk/qcow2.py", "QCow2.__init__", "wrap:self.l2_table = lru_cache(128)(self.l2_table)"),
+    ("dissect/hypervisor/disk/vmdk.py", "SparseDisk.__init__", "wrap:self._lookup_grain_table = lru_cache(128)(self._lookup_grain_table)"),
+    ("dissect/hypervisor/disk/vhdx.py", "BlockAllocationTable.__init__", "wrap:self.get = lru_cache(4096)(self.get)"),
+    ("dissect/hypervisor/disk/vhd.py", "BlockAllocationTable.__init__", "wrap:self.get = lru_cache(4096)(self.get)")]
+
+
+def loader_obligations(rep, pid):
+    """every table loader is memoised (loaded at most once per table / entry), so the cost of the mapping metadata is paid once and not per request"""
+    import ast
+    import re
+
+    from pyvc.engine import Unsupported, find_function
+
+    for file, qual, how in LOADERS:
+        name = f"{file.rsplit('/', 1)[-1][:-3]}:{qual}/table_loader_is_memoised"
+        try:
+            node, src = find_function(rep.repo, file, qual)
+        except Unsupported as e:
+            rep.unsupported.append(f"{name}: unsupported({e})")
+            continue
+        kind, what = how.split(":", 1)
+        if kind == "decorator":
+            ok = any(ast.unparse(d).split(".")[-1] == what for d in node.decorator_list)
+        else:
+            lhs = what.split(" = ")[0]
+            ok = any(isinstance(s_, ast.Assign) and ast.unparse(s_.targets[0]) == lhs and re.fullmatch(r"(functools\.)?(lru_cache\((maxsize=)?(\d+|None)\)|cache)\(" + re.escape(lhs) + r"\)", ast.unparse(s_.value))
+                     for s_ in ast.walk(node))
+        rep.obligations[name] = {"verdict": "discharged" if ok else "undischarged", "atoms": 1, "ms": 0, "backends": {"set-inclusion"}, "stages": set(), "line": node.lineno, "props": ["C13"]}
+        if not ok:
+            p = driver.write_replay(pid, name, {"property": pid, "obligation": name, "verifier_output": f"{qual} is no longer memoised as `{what}`: the table would be re-read on every use"})
+            rep.violations.append((p, f"{qual}: table loader is not memoised ({what} expected): mapping metadata would be re-read per request", True))
+    rep.functions.append({"function": "table loaders of qcow2/hdd/vmdk/vhdx/vhd", "contract": "memoised: cached_property or lru_cache wrapping in __init__", "props": ["C13"]})
+
+
 def extra_checks(rep, pid, ledger, known):
     from replay import harness
+
+    loader_obligations(rep, pid)
 
     evals = 0
     distinct = 0
     worst = []
-    for fmt in ("vhd", "vhdx", "vmdk", "vdi", "hds"):
+    for fmt in ("vhd", "vhdx", "vmdk", "vdi", "hds", "qcow2"):
         mod = importlib.import_module(f"replay.fmt_{fmt}")
         specs = []
         if hasattr(mod, "big_specs"):
@@ -39,10 +77,11 @@ def extra_checks(rep, pid, ledger, known):
                 p = driver.write_replay(pid, f"c13.{fmt}.{f['kind']}", {"property": pid, "fmt": fmt, "spec": case["spec"], "requests": [f.get("req", [0, 0]) + ["stream.read"]], "failure": f})
                 if not any(v[0] == p for v in rep.violations):
                     rep.violations.append((p, f"{fmt} image at large scale: {f['kind']} {f.get('detail', '')[:120]} on request {f.get('req')}", False))
-            for off, ln, api, io in r["stats"].get("per_request_io", []):
+            for ri, (off, ln, api, io) in enumerate(r["stats"].get("per_request_io", [])):
                 evals += 1
-                # a small multiple of the request (aligned to the 8 KiB stream buffer at both ends) + one mapping table per touched unit
-                bound = 3 * (ln + 2 * 8192) + 131072
+                # a small multiple of the request (aligned to the 8 KiB stream buffer at both ends) + one mapping table per touched unit;
+                # a format that loads its whole map on first use (HDS BAT, QCOW2 L1) may spend the map's size once, on the first request
+                bound = 3 * (ln + 2 * 8192) + 131072 + (case["spec"].get("meta_bytes", 0) if ri == 0 else 0)
                 if io > bound:
                     p = driver.write_replay(pid, f"c13.{fmt}.io", {"property": pid, "fmt": fmt, "spec": case["spec"], "requests": [[off, ln, api]], "io_bytes": io, "bound": bound})
                     if not any(v[0] == p for v in rep.violations):
